@@ -447,7 +447,7 @@ def classify_unfaithful(op, r):
 
 EXEC_ZOO = [  # what is mocked; whether the prologue has a stack check is read from the code by the probe (stack=...)
     'S1', 'SetX', 'CmpX', 'S2', 'S3', 'Leaf', 'Load', 'Big', 'Big2', 'Printer', 'G', 'Fib', 'Sq', 'Deep', 'Mixed', 'Tiny', 'Mul4',
-    'TwinLeafG', 'TripleLeafGLoad', 'TwinS2S3', 'TwinSqCube', 'TwinDblSq', 'RemockSq', 'RemockDbl', 'RemockSameBuilderCube',
+    'TwinLeafG', 'TripleLeafGLoad', 'TwinS2S3', 'TwinSqCube', 'TwinDblSq', 'RemockSq', 'RemockDbl', 'RemockSameBuilderCube', 'RebindSq', 'RebindDbl', 'RebindInc',
     'Generic', 'GenericPlain', 'BigLoop', 'LoopHead', 'LoopCount', 'Method', 'MethodTwinTypes', 'RemockRefused']
 EXEC_RECURSIVE = {'Fib', 'Deep'}
 EXEC_BIGLOOP_REG = '''
